@@ -106,7 +106,7 @@ def gen_universe(rng, n=None, heavy=0.08):
         k['foreign_uid'] = rng.choice(['Latin\xe9 N\xe4me <l@example.org>'.encode('latin-1'), b'Foreign Key <f@example.org>']).hex()
         k['alg'] = 'ed25519'
         if rng.random() < 0.6:
-            k['foreign_sub'] = {'curve': rng.choice(['cv25519', 'cv25519', 'ecdh_p256', 'ecdh_p384', 'ecdh_p521']),
+            k['foreign_sub'] = {'curve': rng.choice(['cv25519', 'cv25519', 'ecdh_p256', 'ecdh_p384', 'ecdh_p521', 'elg2048']),
                                 'kdf': rng.choice([[8, 7], [10, 9], [9, 8], [10, 7], [8, 9], [9, 9]])}
     return keys
 
@@ -235,8 +235,13 @@ class KeyHistory(object):
         subs = []
         fs = c.get('foreign_sub')
         if fs:
-            sb, salg, ssec = rkeys.gen_key(fs['curve'], created, seams.derive(rs, 'foreignkey:' + name, 'sub', 72 if fs['curve'] != 'cv25519' else 32),
-                                           kdf=fs['kdf'])
+            if fs['curve'].startswith('elg'):
+                # the classic GnuPG shape: an ElGamal encryption subkey
+                from .props.c05 import make_ref_key
+                sb, salg, ssec = make_ref_key(fs['curve'], created, b'', rs, label='foreignkey:' + name)
+            else:
+                sb, salg, ssec = rkeys.gen_key(fs['curve'], created, seams.derive(rs, 'foreignkey:' + name, 'sub', 72 if fs['curve'] != 'cv25519' else 32),
+                                               kdf=fs['kdf'])
             subs.append((sb, salg, ssec, 0x0C))
         tkb = bridge.build_ref_tkey(body, alg, sec, bytes.fromhex(c['foreign_uid']), created, secret_export=True, subkeys=subs)
         return self.pgpy.PGPKey.from_blob(tkb)[0]
